@@ -132,7 +132,7 @@ CHECKS = {
     note="Trusted: rustc MIR/type facts. Rust's borrow rules give 'draw(&self) cannot mutate non-interior fields'.",
  ),
  "C13": dict(
-    technique="path-sensitive typestate over MIR (push/pop stack automaton), dominator guards, recursion-idiom recogniser, instance-level call-graph SCCs over the colour code",
+    technique="path-sensitive typestate over MIR (push/pop stack automaton), dominator guards, recursion-idiom recogniser, instance-level call-graph SCCs over the colour code, symbolic-argument comparison of recursive calls (descend-once rule), result-fate dataflow",
     design_ref="DESIGN.md §4 C13",
     text="All CFG paths of traverse_with_callbacks / ColorGlyph::paint / traverse_v0_range / ColorPainter default methods: "
          "every exit not classified Err has an empty LIFO-matched push/pop stack over the client painter (nested traversals "
@@ -140,8 +140,10 @@ CHECKS = {
          "guarded by a constant and incremented at all 7 self calls; calls on new paint-graph edges pass a guard from "
          "Decycler::enter(..)?, whose write is bounds-guarded and whose guard drop decrements; every call-graph cycle touching "
          "skrifa::color, the decycler or read-fonts' COLR code matches a bounded-recursion idiom (a new recursion that bypasses the "
-         "depth counter and the decycler is a violation). Decides these structural clauses for every paint graph; does not bound "
-         "the number of visited nodes beyond depth <= 64.",
+         "depth counter and the decycler is a violation); no path descends into the same child twice except as a probe that is cut "
+         "off at nested occurrences (otherwise 2^depth visits: F31, repaired); the Result of every nested traversal is propagated "
+         "or returned. Decides these structural clauses for every paint graph; the number of visited nodes is bounded by twice "
+         "the number of (path-distinct) nodes within depth <= 64, not by the table size (shared sub-graphs are revisited per path).",
     note="Trusted: rustc MIR construction, the fact dumper, the explorer. The embedder's painter is a black box (A-CB).",
  ),
  "C14": dict(
